@@ -46,6 +46,23 @@ var c19Prefixes = map[string][]string{
 }
 
 // prefixOf classifies a raw key of a store.
+// c19Class classifies a record by key and, where the key layout says nothing, by what its value decodes to: a block-list
+// entry stays a block-list entry under whatever key the module files it.
+func c19Class(c *chain.Chain, store string, key, value []byte) string {
+	p := c19PrefixOf(store, key)
+	if store == notiftypes.StoreKey && strings.HasPrefix(p, "?") {
+		var b notiftypes.Block
+		if err := c.App.AppCodec().Unmarshal(value, &b); err == nil && b.Address != "" && b.BlockedAddress != "" {
+			if _, e1 := sdk.AccAddressFromBech32(b.Address); e1 == nil {
+				if _, e2 := sdk.AccAddressFromBech32(b.BlockedAddress); e2 == nil {
+					return "Notification/(block-entries)"
+				}
+			}
+		}
+	}
+	return p
+}
+
 func c19PrefixOf(store string, key []byte) string {
 	for _, p := range c19Prefixes[store] {
 		if bytes.HasPrefix(key, []byte(p)) {
@@ -59,7 +76,9 @@ func c19PrefixOf(store string, key []byte) string {
 		}
 	}
 	k := string(key)
-	if len(k) > 16 {
+	if i := strings.Index(k, "/"); i >= 0 {
+		k = k[:i+1] // an unknown record kind is named by its prefix up to the first separator
+	} else if len(k) > 16 {
 		k = k[:16]
 	}
 	return "?" + k
@@ -234,7 +253,7 @@ func c19RoundTrip(c *chain.Chain, ctx sdk.Context) (res c19Result) {
 		src := map[string][]byte{}
 		for _, kv := range chain.DumpPrefix(c, ctx, st, nil) {
 			src[string(kv.K)] = kv.V
-			res.prefixes[st+":"+c19PrefixOf(st, kv.K)] = true
+			res.prefixes[st+":"+c19Class(c, st, kv.K, kv.V)] = true
 		}
 		dst := map[string][]byte{}
 		for _, kv := range chain.DumpPrefix(restored, rctx, st, nil) {
@@ -248,12 +267,16 @@ func c19RoundTrip(c *chain.Chain, ctx sdk.Context) (res c19Result) {
 			keys[k] = true
 		}
 		for _, k := range sortedStrings(keys) {
-			sp := st + ":" + c19PrefixOf(st, []byte(k))
+			s, okS := src[k]
+			d, okD := dst[k]
+			val := s
+			if !okS {
+				val = d
+			}
+			sp := st + ":" + c19Class(c, st, []byte(k), val)
 			if c19Ignore[sp] {
 				continue
 			}
-			s, okS := src[k]
-			d, okD := dst[k]
 			var what string
 			switch {
 			case okS && !okD:
